@@ -144,17 +144,25 @@ pub assume_specification[ <TypeEntry as Clone>::clone ](x: &TypeEntry) -> (r: Ty
         r == *x,
 ;
 
-impl TypeEntry {
-    /// ASSUMED: finalize leaves the allocator alone, keeps the entry's name, and marks it.
+impl TypeEntryEnum {
+    /// ASSUMED: computing an enum's bespoke impl markers changes nothing else of it.
     #[verifier::external_body]
-    pub fn finalize(&mut self, type_space: &mut TypeSpace) -> (r: Result<()>)
+    pub fn finalize(&mut self, type_space: &TypeSpace)
+        ensures
+            final(self).name == old(self).name,
+    {
+        unimplemented!()
+    }
+}
+
+impl TypeEntry {
+    /// ASSUMED: validating the defaults leaves the allocator alone (it may only register a
+    /// shared default function); success is what "finalized" means.
+    #[verifier::external_body]
+    pub fn check_defaults(&self, type_space: &mut TypeSpace) -> (r: Result<()>)
         ensures
             final(type_space).same_state(old(type_space)),
-            final(self).is_named() == old(self).is_named(),
-            final(self).is_named() ==> final(self).spec_name() == old(self).spec_name(),
-            details_named(final(self).details) == details_named(old(self).details),
-            (final(self).details is Reference) == (old(self).details is Reference),
-            r is Ok ==> finalized(*final(self)),
+            r is Ok ==> finalized(*self),
     {
         unimplemented!()
     }
